@@ -510,7 +510,9 @@ Fixpoint rh_loop (fuel : nat) (s : list N) (out : thdr) (flags : N) (prev_zero :
   | O => OutOfFuel
   | S f =>
     let (h, s1) := sread sizeof_tar_header_t s in
-    if blen h <? sizeof_tar_header_t then Ok RH_eof else
+    (* sqfs_istream_read returned 0: end of the archive; a partial header record is an error *)
+    if blen h =? 0 then Ok RH_eof else
+    if blen h <? sizeof_tar_header_t then Err e_eof else
     if all_zero h then (if prev_zero then Ok RH_eof else rh_loop f s1 out flags true) else
     do ver <- check_version h;
     match ver with
